@@ -544,6 +544,9 @@ def is_spawn(n):
                         "std::thread::Scope::spawn", "rayon::ScopeFifo::spawn_fifo")
 
 
+FILTERISH = ("filter", "and_then", "take_if", "filter_map", "xor", "zip", "or", "or_else", "take")
+
+
 def rule_locked_take(ctx, rule, fv, expect):
     """Inside spawned workers a record is taken only through a MutexGuard (record and ordinal
     are produced by one &mut call made while the reader lock is held)."""
@@ -579,7 +582,7 @@ def rule_locked_take(ctx, rule, fv, expect):
                 break
             if par.get("k") in ("mcall", "call") and call_args(par) and call_args(par)[0] is cur:
                 last = cname(par).split("::")[-1]
-                if last in ("filter", "and_then", "take_if", "filter_map", "xor", "zip", "or", "or_else", "take"):
+                if last in FILTERISH:
                     post = par
                     break
                 if last in ("unwrap", "expect", "map", "inspect", "as_ref", "as_mut", "clone"):
@@ -589,6 +592,17 @@ def rule_locked_take(ctx, rule, fv, expect):
             if par.get("k") in ("addr", "block") and (par.get("e") is cur or par.get("expr") is cur):
                 cur = par
                 continue
+            if par.get("k") == "let" and par.get("init") is cur and par.get("pat", {}).get("k") == "pbind":
+                # bound to a local first: look at what is done with that local
+                lid_ = par["pat"]["id"]
+                for u in fv.nodes:
+                    if u.get("k") in ("mcall", "call") and call_args(u) and cname(u).split("::")[-1] in FILTERISH:
+                        a0 = call_args(u)[0]
+                        while a0.get("k") in ("addr",):
+                            a0 = a0["e"]
+                        if a0.get("k") == "local" and a0.get("id") == lid_:
+                            post = u
+                break
             break
         ctx.check(rule, key + ":unfiltered", post is None, "the taken Option is tested as the reader returned it",
                   "the reader's answer goes through `%s` before the worker tests it: a record for which that yields None looks "
